@@ -74,7 +74,8 @@ Definition names_loc (t : txn) (a : addr) (p : N) : Prop :=
   | TAppl s ap =>
       match ap_access ap with
       | Some l => (ap_id ap <> 0 /\ a = s /\ p = ap_id ap) \/
-                  exists ai pi, In (RLoc ai pi) l /\ resolve_loc l s (ap_id ap) ai pi = Some (a, p)
+                  exists ai pi, In (RLoc ai pi) l /\ (ai <> 0 \/ pi <> 0) /\   (* LocalsRef{0,0} is the empty element *)
+                                resolve_loc l s (ap_id ap) ai pi = Some (a, p)
       | None => foreign_account s ap a /\ foreign_app ap p
       end
   | _ => False
@@ -88,7 +89,8 @@ Definition names_box (t : txn) (app : N) (name : bytes) : Prop :=
   match t with
   | TAppl _ ap =>
       match ap_access ap with
-      | Some l => exists idx app0, In (RBox idx name) l /\ resolve_box l idx = Some app0 /\ box_target ap app0 app
+      | Some l => exists idx app0, In (RBox idx name) l /\ (idx <> 0 \/ name <> []) /\   (* BoxRef{0,nil}: empty *)
+                                   resolve_box l idx = Some app0 /\ box_target ap app0 app
       | None => exists idx, In (idx, name) (ap_boxes ap) /\
                   ((idx = 0 /\ box_target ap 0 app) \/
                    (idx <> 0 /\ exists app0, nth1 (ap_fapps ap) idx = Some app0 /\ box_target ap app0 app))
@@ -253,7 +255,8 @@ Definition names_loc_b (t : txn) (a : addr) (p : N) : bool :=
       match ap_access ap with
       | Some l => (nzb (ap_id ap) && (a =? s) && (p =? ap_id ap)) ||
                   existsb (fun rr => match rr with
-                                     | RLoc ai pi => opt_pair_is (resolve_loc l s (ap_id ap) ai pi) a p
+                                     | RLoc ai pi => negb ((ai =? 0) && (pi =? 0)) &&
+                                                     opt_pair_is (resolve_loc l s (ap_id ap) ai pi) a p
                                      | _ => false
                                      end) l
       | None => foreign_account_b s ap a && foreign_app_b ap p
@@ -269,6 +272,7 @@ Definition names_box_b (t : txn) (app : N) (name : bytes) : bool :=
       | Some l => existsb (fun rr => match rr with
                                      | RBox idx nm =>
                                          bytes_eqb nm name &&
+                                         negb ((idx =? 0) && (match nm with [] => true | _ => false end)) &&
                                          match resolve_box l idx with
                                          | Some app0 => box_target_b ap app0 app
                                          | None => false
@@ -334,12 +338,23 @@ Definition justified_b (w : world) (r : resource) : bool :=
   | ResBox app name => J_box_b w app name
   end.
 
-(* the recorded deviation: tx.Access matching by struct component makes the zero address "named" by
-   any element of another kind (IndexByAddress: rr.Address == target) *)
-Definition zero_addr_via_access (w : world) (r : resource) : bool :=
+(* the recorded deviation: tx.Access is searched by struct component (IndexByAddress: rr.Address ==
+   target, availableAsset: rr.Asset == aid, availableApp: rr.App == aid), so the zero address / id 0
+   is "named" by any element of another kind *)
+Definition zero_acct_via_access (w : world) (a : addr) : bool :=
+  (a =? 0) && existsb (fun rr => rr_address rr =? 0) (access_of (w_cur w)).
+Definition zero_asset_via_access (w : world) (n : N) : bool :=
+  (n =? 0) && existsb (fun rr => rr_asset rr =? 0) (access_of (w_cur w)).
+Definition zero_app_via_access (w : world) (n : N) : bool :=
+  (n =? 0) && existsb (fun rr => rr_app rr =? 0) (access_of (w_cur w)).
+Definition zero_via_access (w : world) (r : resource) : bool :=
   match r with
-  | ResAcct a => (a =? 0) && existsb (fun rr => rr_address rr =? 0) (access_of (w_cur w))
-  | _ => false
+  | ResAcct a => zero_acct_via_access w a
+  | ResAsset n => zero_asset_via_access w n
+  | ResApp n => zero_app_via_access w n
+  | ResHold a n => zero_acct_via_access w a || zero_asset_via_access w n
+  | ResLoc a n => zero_acct_via_access w a || zero_app_via_access w n
+  | ResBox _ _ => false
   end.
 
 End Spec.
@@ -537,7 +552,7 @@ Definition check (t : term) : term :=
               let bad := filter (fun r => negb (justified_b appaddr_c w r)) otouch in
               let spec_ok := pl || match bad with [] => true | _ => false end in
               let known := negb pl && negb (match bad with [] => true | _ => false end) &&
-                           forallb (zero_addr_via_access w) bad in
+                           forallb (zero_via_access w) bad in
               match probe with
               | TL [TS "one"; acc] =>
                   match p_access acc with
@@ -547,10 +562,10 @@ Definition check (t : term) : term :=
                       let mcls := match m with Ok _ => 0 | Err e => e end in
                       let mtouch := match m with Ok rs => rs | Err _ => [] end in
                       let mobs := TL [TL [tn mcls]; TL (map t_resource mtouch)] in
-                      let is_sub := match acc with AISubmit _ _ => true | _ => false end in
+                      let is_sub := match acc with AISubmit _ _ | AIAcct _ | AIAsset _ | AIApp _ => true | _ => false end in
                       let corr := list_eqb N.eqb ocls [mcls] &&
                                   (is_sub || sort_free_eq (map t_resource mtouch) (map t_resource otouch)) in
-                      if known then v_known "c35_zero_address_via_access" mobs
+                      if known then v_known "c35_zero_value_via_access" mobs
                       else verdict spec_ok corr (negb (mcls =? E_PRE)) mobs
                   end
               | TL (TS "box" :: ops) =>
